@@ -17,28 +17,30 @@ pub fn check_tiling(s: &[u8], log: &Log, end: Option<usize>) -> Result<TilingSta
         }
         match ev {
             TEv::Err(DErr::Discarded(n)) => {
-                if i < 7 || s[i - 7..=i] != START {
-                    return Err(format!(
-                        "DiscardedBytes({}) at position {} but the 8 bytes ending there are not a start sequence",
-                        n, i
-                    ));
+                // the count must lead from the previous boundary exactly to a start sequence that has been
+                // consumed completely by now (where in the stream the report surfaces is not prescribed)
+                let st0 = seg_start + *n;
+                let on_start = st0 + 8 <= s.len() && s[st0..st0 + 8] == START;
+                if !on_start || st0 + 7 > i {
+                    let hint = if i >= 7 && s[i - 7..=i] == START {
+                        format!(
+                            "exactly {} bytes lie between the previous boundary (offset {}) and the start sequence completed at position {} (offset {})",
+                            (i - 7).saturating_sub(seg_start),
+                            seg_start,
+                            i,
+                            i - 7
+                        )
+                    } else {
+                        format!("previous boundary at offset {}, no start sequence begins at offset {}", seg_start, st0)
+                    };
+                    return Err(format!("DiscardedBytes({}) at position {}: {}", n, i, hint));
                 }
-                let want = (i - 7).checked_sub(seg_start).ok_or_else(|| {
-                    format!("DiscardedBytes({}) at position {}: start sequence overlaps the previous boundary {}", n, i, seg_start)
-                })?;
-                if *n != want {
-                    return Err(format!(
-                        "DiscardedBytes({}) at position {}: exactly {} bytes lie between the previous boundary (offset {}) and the start sequence (offset {})",
-                        n,
-                        i,
-                        want,
-                        seg_start,
-                        i - 7
-                    ));
+                if *n == 0 {
+                    return Err(format!("DiscardedBytes(0) at position {}", i));
                 }
                 st.max_discard = st.max_discard.max(*n);
                 st.discards += 1;
-                seg_start = i - 7;
+                seg_start = st0;
             }
             TEv::Ok(_) | TEv::Err(DErr::InvalidMsg { .. }) | TEv::Err(DErr::InvalidEsc(_)) | TEv::Err(DErr::Oom) => {
                 if s.len() < seg_start + 8 || s[seg_start..seg_start + 8] != START {
